@@ -313,12 +313,15 @@ type Genesis struct {
 	Accounts []sdk.AccAddress // accounts to create (signers must exist, as the ante handler demands)
 	Balances map[string]sdk.Coins
 	Staking  []ValState
+	// InitialHeight: the chain starts above this height (a chain restarted from an export keeps counting: genesis
+	// field initial_height); 0 = a new chain
+	InitialHeight int64
 }
 
-// InitGenesis installs genesis at height 0 and opens block 1 (BeginBlocker executed).
+// InitGenesis installs genesis at height 0 (or InitialHeight) and opens the first block (BeginBlocker executed).
 func (in *Instance) InitGenesis(g Genesis) {
 	in.mount(nil)
-	in.Height, in.Time, in.TxCount = 0, T0-5, 0
+	in.Height, in.Time, in.TxCount = g.InitialHeight, T0-5, 0
 	in.Staking.Vals = append([]ValState(nil), g.Staking...)
 	ctx := in.ctxOn(in.root)
 	in.Bank.SetParams(ctx, banktypes.DefaultParams())
